@@ -31,7 +31,7 @@ FUNCTIONS = ['StimCircuitFactoryManager.construct', 'StimCircuitFactoryManager.c
 BOUNDS = {'quick': "every one of the 26 classes alone and inside a repeated sub-circuit (count 1..3); 600 seeded random programs over all classes with <= 4 steps per "
                    "circuit, nesting <= 2, counts 1..3; detector shapes: all 5 target shapes + fall-through with unbounded symbolic record fields; library circuits "
                    "d in {2,3}, cycles 0..5 for the before/after-unrolling clause",
-          'thorough': "4000 random programs with <= 5 steps, nesting <= 3; library circuits d <= 4, cycles 0..7, sub-chains of the shipped layouts"}
+          'thorough': "30000 random programs with <= 5 steps, nesting <= 3; library circuits d <= 5, cycles 0..9, sub-chains of the shipped layouts"}
 OUTSIDE = ["stim's own parsing and fusing of adjacent instructions (the comparison is made after splitting fused targets)", "non-integer coordinate shifts",
            "detector field combinations for which the lookback would be non-negative (stim rejects them)",
            "a LogicalObservableOperation without record fields (the fall-through builds OBSERVABLE_INCLUDE without its index argument, which real stim rejects with ValueError)"]
@@ -66,12 +66,12 @@ def jobs(tier, seed):
         for rep in (1, 2, 3):
             out.append({'prog': {'steps': [{'k': ['G', 'Rx180', [1]], 'rel': None}, {'k': ['S', {'steps': [{'k': k, 'rel': None}, {'k': ['G', 'Ry90', [0]], 'rel': None}], 'rep': rep}], 'rel': None},
                                            {'k': ['M', 1, 'z'], 'rel': None}]}})
-    n, steps, depth = (600, 4, 2) if tier == 'quick' else (4000, 5, 3)
+    n, steps, depth = (600, 4, 2) if tier == 'quick' else (30000, 5, 3)
     for _ in range(n):
         p = gen.random_program(rng, alpha, steps, depth, types='FSE', p_sub=0.3, p_rel=0.3, reps=(1, 2, 3), sub_rel=False)
         if gen.count_leaves(p) <= 40:
             out.append({'prog': p})
-    dmax, cmax = (3, 5) if tier == 'quick' else (4, 7)
+    dmax, cmax = (3, 5) if tier == 'quick' else (5, 9)
     for d in range(2, dmax + 1):
         for cycles in range(0, cmax + 1):
             out.append({'library': {'kind': 'full', 'd': d, 'cycles': cycles}})
